@@ -168,6 +168,8 @@ impl Iterator for ForceProgressIterator<'_> {
 
     fn next(&mut self) -> Option<Self::Item> {
         if self.count_zero_length > 3 {
+            #[cfg(regexml_verif)]
+            crate::verif::note_cutoff("force_progress");
             return None;
         }
         let p = Some(self.base.next()?);
